@@ -131,7 +131,7 @@ def cell_program(ident, role, feat):
 HELPER_TABLE = {
     'type': ["aug-attr", "class", "class-body-uses", "class-init-subclass", "super0"],
     'setattr': ["aug-attr", "class-init-subclass", "for-break", "for-break-body-uses", "for-iter-uses", "return-in-loop", "return-in-loop-uses"],
-    'hasattr': ["aug-attr", "aug-name", "aug-subscript", "aug-uses", "global-store", "nonlocal-store", "while", "while-else-break", "while-else-test-uses", "while-test-uses"],
+    'hasattr': ["global-store", "nonlocal-store", "while", "while-else-break", "while-else-test-uses", "while-test-uses"],
     'iter': ["for-break", "for-break-body-uses", "for-iter-uses", "return-in-loop", "return-in-loop-uses"],
     'next': ["for-break", "for-break-body-uses", "for-iter-uses", "return-in-loop", "return-in-loop-uses"],
     'tuple': ["destructure", "destructure-star", "destructure-uses", "chained-destructure", "nested-destructure-order"],
